@@ -35,22 +35,35 @@ theorem mark_is_start (f : BFreq) : isEnd (mark f) = true ∧ startFreq (mark f)
 
 theorem filler_cells_are_neutral : isEnd "*" = false ∧ isEnd "" = false ∧ startFreq "__" = none := by decide
 
-/-- scalars and lists are not exported: the grid depends on the series items only -/
-theorem nonseries_not_exported {V : Type} (c : Codec V) (d : Bool) (db : Box (Ser V) V) :
-    exportGrid c d db = exportGrid c d (db.filter (fun p => isSer p.2)) := by
+/-- scalars and lists are not exported, whatever periods are selected: the grid depends on the series items only -/
+theorem nonseries_not_exported_with {V : Type} (c : Codec V) (d : Bool) (fs : FSpan) (db : Box (Ser V) V) :
+    exportGridWith c d fs db = exportGridWith c d fs (db.filter (fun p => isSer p.2)) := by
   have h : seriesOf (db.filter (fun p => isSer p.2)) = seriesOf db := by
     induction db with
     | nil => rfl
     | cons p rest ih =>
       obtain ⟨n, it⟩ := p
       cases it <;> simp_all [seriesOf, isSer]
-  simp [exportGrid, h]
+  simp [exportGridWith, h]
+
+theorem nonseries_not_exported {V : Type} (c : Codec V) (d : Bool) (db : Box (Ser V) V) :
+    exportGrid c d db = exportGrid c d (db.filter (fun p => isSer p.2)) :=
+  nonseries_not_exported_with c d defaultFSpan db
 
 /-- a databox without series writes nothing, and nothing is read back from an empty grid -/
-theorem empty_export_import {V : Type} (c : Codec V) (d : Bool) (db : Box (Ser V) V) (h : seriesOf db = []) :
-    exportGrid c d db = [] ∧ importGrid c d (exportGrid c d db) = .ok [] := by
-  have : exportGrid c d db = [] := by simp [exportGrid, h, exportBlocks, withFreq, blockOrder]
+theorem empty_export_import {V : Type} (c : Codec V) (d : Bool) (fs : FSpan) (db : Box (Ser V) V) (h : seriesOf db = []) :
+    exportGridWith c d fs db = [] ∧ importGrid c d (exportGridWith c d fs db) = .ok [] := by
+  have : exportGridWith c d fs db = [] := by simp [exportGridWith, h, exportBlocksWith, withFreq]
   exact ⟨this, by rw [this]; rfl⟩
+
+/-- **Explicitly selected periods**: whatever the order, step or repetition of the periods handed to `to_csv_file(span=…)`,
+the cells written next to a date are the series' own row of that very period (`rowAt`), NaN where the series has none -/
+theorem dataRow_is_own_period {V : Type} (c : Codec V) (b : Block V) (t : Int) :
+    b.dataRow c t = c.fmtDate b.freq t :: (b.members.flatMap (fun p => (p.2.rowAt t).map c.fmtCell) ++ [""]) := rfl
+
+theorem explicit_span_rows {V : Type} (c : Codec V) (d : Bool) (total : Nat) (b : Block V) :
+    ((b.rows c d total).drop (headerRows d)).take b.periods.length = b.periods.map (b.dataRow c) := by
+  cases d <;> simp [Block.rows, headerRows]
 
 section Csv
 variable {V : Type}
@@ -103,6 +116,27 @@ theorem csv_roundtrip_partial_trim {V : Type} (s : Ser V) (h : Trimmed s) (a b :
   simp [hne]
 
 
+
+/-- **On the grid actually exported** (the default export or any selection of frequencies and periods) the importer's block
+iterator, run on the grid's first row, finds exactly the exported blocks -/
+theorem csv_roundtrip_partial_grid_blocks (c : Codec V) (d : Bool) (fs : FSpan) (db : Box (Ser V) V)
+    (h : GoodNames (seriesOf db)) (hne : (exportBlocksWith fs (seriesOf db)).isEmpty = false) :
+    ∃ nameRow rest, exportGridWith c d fs db = nameRow :: rest
+      ∧ blockIterator nameRow = rawOf 0 (exportBlocksWith fs (seriesOf db)) := by
+  obtain ⟨rest, hr⟩ := exportGridWith_nameRow c d fs db hne
+  exact ⟨_, rest, hr, scan_export _ (goodNames_exportBlocksWith fs _ h) 0⟩
+
+/-- **and the column iterator, run on a block's own slice of the concatenated header rows** (name row and description
+row of any list of blocks), recovers that block's series: first column, variants, name, description -/
+theorem csv_roundtrip_partial_grid_columns (B1 B2 : List (Block V)) (b : Block V)
+    (h : ∀ x ∈ B1 ++ b :: B2, GoodNames x.members) :
+    columnIterator
+        (sliceRow ⟨b.freq, (B1.flatMap Block.nameRow).length, b.width - 1⟩ ((B1 ++ b :: B2).flatMap Block.nameRow))
+        (sliceRow ⟨b.freq, (B1.flatMap Block.nameRow).length, b.width - 1⟩ ((B1 ++ b :: B2).flatMap Block.descRow))
+      = colsOf 0 b.members := by
+  have hs := header_slices B1 B2 b h
+  rw [hs.1, hs.2]
+  exact csv_roundtrip_partial_columns b.members (h b (by simp))
 
 /-- the format reserves exactly this much of a name: non-empty, not the continuation mark, not starting with the block mark -/
 example : GoodNames [("gdp, real", (⟨.Q, 8080, 2, [[some 1, none], [none, some 2]], "a \"desc\", *"⟩ : Ser Nat)), ("x y", ⟨.Q, 8079, 1, [[some 3]], "*"⟩)] := by
@@ -194,6 +228,57 @@ theorem exhaustThenLast_spec {α : Type} (l : List α) (hl : l ≠ []) (v : Nat)
 
 example : recordOf [("a", Item.ser (⟨.Q, 8080, 2, [[some 1, some 2], [none, some 3]], ""⟩ : Ser Nat))] .Q 8079 4 [] [] false [] 5 "a"
     = .ok [none, some 2, some 3, none] := by decide
+
+/-- **Removing periods from the start keeps exactly the base periods that remain**: a base period is dropped iff it is one
+of the removed periods; in particular removing precisely the presample periods leaves the base span untouched -/
+theorem removeFromStart_basePeriods (sl : Slate V) (n : Nat) :
+    (sl.removeFromStart n).basePeriods = sl.basePeriods.filter (fun p => sl.start + (n : Int) ≤ p) := by
+  unfold Slate.basePeriods Slate.removeFromStart
+  simp only [List.map_map, List.filter_map]
+  have hf : sl.baseCols.filter ((fun p => decide (sl.start + (n : Int) ≤ p)) ∘ fun (i : Nat) => sl.start + (i : Int))
+      = sl.baseCols.filter (fun i => decide (n ≤ i)) := by
+    apply List.filter_congr
+    intro i _
+    simp only [Function.comp, decide_eq_decide]
+    omega
+  rw [hf]
+  apply List.map_congr_left
+  intro i hi
+  have : n ≤ i := by simpa using (List.mem_filter.mp hi).2
+  simp only [Function.comp]
+  omega
+
+theorem removeFromStart_presample (sl : Slate V) (n : Nat) (h : ∀ i ∈ sl.baseCols, n ≤ i) :
+    (sl.removeFromStart n).basePeriods = sl.basePeriods := by
+  rw [removeFromStart_basePeriods]
+  apply List.filter_eq_self.mpr
+  intro p hp
+  unfold Slate.basePeriods at hp
+  obtain ⟨i, hi, rfl⟩ := List.mem_map.mp hp
+  have := h i hi
+  simp only [decide_eq_true_eq]
+  omega
+
+/-- removing periods from the end keeps exactly the base periods that remain -/
+theorem removeFromEnd_basePeriods (sl : Slate V) (n : Nat) :
+    (sl.removeFromEnd n).basePeriods = sl.basePeriods.filter (fun p => p < sl.start + ((sl.len - n : Nat) : Int)) := by
+  unfold Slate.basePeriods Slate.removeFromEnd
+  simp only [List.filter_map]
+  congr 1
+  apply List.filter_congr
+  intro i _
+  simp only [Function.comp, decide_eq_decide]
+  omega
+
+/-- adding periods at the end changes neither the start nor the base periods, and the new cells are NaN -/
+theorem addToEnd_basePeriods (sl : Slate V) (n : Nat) :
+    (sl.addToEnd n).basePeriods = sl.basePeriods ∧ (sl.addToEnd n).start = sl.start ∧ (sl.addToEnd n).len = sl.len + n :=
+  ⟨rfl, rfl, rfl⟩
+
+example : (Slate.removeFromStart
+    (Slate.mk ["a"] BFreq.Q 8076 8 [2, 3, 5] [[[some 1, some 2, some 3, some 4, some 5, some 6, some 7, some (8 : Nat)]]] (-2) 1)
+    2).basePeriods = [8078, 8079, 8081] := by
+  decide
 
 end Slate
 
